@@ -20,7 +20,7 @@ TOKENS = ["P", "K", "B", "[", "]", "(", ")", "{", "}", "<", ">", "?", "-", "+", 
           "1", "2", "Oxidation", "\\", " "]
 
 
-def outcome_of(pp, s, watchdog=2.0):
+def outcome_of(pp, s, watchdog=1.0):
     o, v = call(pp.parse, s, watchdog=watchdog)
     info = exc_info(o, v)
     ser = "na"
@@ -33,10 +33,18 @@ def outcome_of(pp, s, watchdog=2.0):
     return (info["cls"], info["isv"], ser, valid)
 
 
+_HANGS = 0
+
+
 def real_outcome(pp, s):
     """Outcome of the real parse() in the vocabulary of spec/ParserMachine.tla!Outcome."""
     from harness import project
-    o, v = call(pp.parse, s)
+    global _HANGS
+    if _HANGS >= 5:      # a hanging parser is reported by the bucket events; do not wait for its watchdog again and again
+        return {"cls": "reject", "chains": [], "links": []}
+    o, v = call(pp.parse, s, watchdog=1.0)
+    if o == "hang":
+        _HANGS += 1
     if o != "ret":
         return {"cls": "reject", "chains": [], "links": []}
     if isinstance(v, pp.ProFormaAnnotation):
@@ -46,10 +54,10 @@ def real_outcome(pp, s):
 
 def _work(args):
     first_tokens, length = args
-    sys.path.insert(0, "/repo/src")
     warnings.simplefilter("ignore")
     import peptacular as pp
     buckets = {}
+    hangs = 0
     for head in first_tokens:
         for rest in itertools.product(TOKENS, repeat=length - len(head)):
             s = "".join(head + rest)
@@ -58,6 +66,10 @@ def _work(args):
             b[0] += 1
             if len(b[1]) < 3:
                 b[1].append(s)
+            if "hang" in k:
+                hangs += 1
+                if hangs >= 8:      # a hanging parser is a violation already; do not spend the budget on its watchdogs
+                    return buckets
     return buckets
 
 
@@ -91,12 +103,15 @@ def bucket_events(tag, total):
 
 CORPUS = ["INVALID", "U:999999", "UNIMOD:Nope", "Formula:Xx2", "Glycan:Foo", "Obs:abc", "U:+1a", "M:00000000", "X:nope",
           "R:nope", "G:nope", "Nope|INFO:x", "INFO:only", "Formula:", "Glycan:", "Glycan:Hex2Foo", "MOD:xyz", "Oxidized", "unimod:",
+          "", "Nope|", "|", "#g1|Nope",
           "Formula:C2:H4", "Obs:1.5:35", "Glycan:Hex:Hex", "Formula:[]", "Formula:C[]", "U:+1:5",
           "Oxidation", "U:35", "+15.995", "Formula:C2H4", "Glycan:Hex", "Obs:+1.5", "Oxidation|Nope", "Nope|Oxidation"]
 SLOTS = ["internal", "nterm", "cterm", "unknown", "labile", "interval", "static", "static_nterm"]
 # global isotope labels and charge adducts have their own value grammars
 ISOTOPE_CORPUS = ["13C", "15N", "D", "T", "2H", "18O", "34S", "Foo", "13X", "99C", "C13"]
-ADDUCT_CORPUS = ["+H+", "+2Na+,+H+", "+K+", "-H+", "+Ca2+", "+Cl-", "+e-", "+Foo+", "", "+2Xx+", "+Na+,+Qq+"]
+ADDUCT_CORPUS = ["+H+", "+2Na+,+H+", "+K+", "-H+", "+Ca2+", "+Cl-", "+e-", "+Foo+", "", "+2Xx+", "+Na+,+Qq+", "1", "2.5"]
+# global rules: with and without a bracketed modification (without one the rule means nothing)
+RULE_CORPUS = ["[Oxidation]@M", "[1]@P,E", "Bogus@P", "@P", "Oxidation@M", "[Oxidation]^2@N-term"]
 
 
 # generated modification values: prefix x 1..3 body pieces (balanced brackets everywhere; stray brackets only in the
@@ -188,6 +203,8 @@ def run(tier, seed, rep):
             s = "".join(rnd.choice(TOKENS) for _ in range(rnd.randint(1, 40)))
         else:
             s = mutate(rnd, anngen.render(anngen.annotation(rnd, 1, 8), rnd.random() < 0.5))
+        if sum(v[0] for kk, v in buckets.items() if "hang" in kk) >= 20:
+            break
         k = outcome_of(pp, s)
         b = buckets.setdefault(k, [0, []])
         b[0] += 1
@@ -248,6 +265,15 @@ def run(tier, seed, rep):
         o3, r3 = call(pp.comp, text)
         evs.append({"tid": f"D{j}", "k": "deferred_adduct", "adduct": v, "text": text, "parse": exc_info(o, a),
                     "mass": exc_info(o2, r2), "comp": exc_info(o3, r3)})
+        j += 1
+    for v in RULE_CORPUS:
+        text = f"<{v}>PEMPTIDE"
+        o, a = call(pp.parse, text)
+        o2, r2 = call(pp.mass, text)
+        o3, r3 = call(lambda: pp.comp(text, estimate_delta=True))
+        evs.append({"tid": f"D{j}", "k": "deferred_rule", "rule": "s:" + v, "text": text, "parse": exc_info(o, a),
+                    "mass": exc_info(o2, r2), "comp": exc_info(o3, r3),
+                    "massUnchanged": bool(o2 == "ret" and abs(r2 - pp.mass("PEMPTIDE")) < 1e-9)})
         j += 1
     res = core.validate_traces("Trace_Parser", evs, "C09")
     rep.add_trace("parser_totality", evs, res, traces=nstrings + sum(v[0] for v in buckets.values()) + j,
